@@ -36,10 +36,9 @@ type histNode struct {
 type history struct {
 	byHash  map[types.Hash]*histNode
 	blockIn map[types.Hash][]types.Hash // account-block hash -> momentums (of any branch) that contain it
-	blk    map[types.Hash][]byte // every account block the producer made (descendants included), by hash
-	byHash map[types.Hash]*histNode
-	paths  [][]types.Hash // full paths from genesis; paths[0] is the trunk; index = height-1
-	forkAt []uint64       // height of the last momentum shared with the trunk (0 for the trunk itself)
+	blk     map[types.Hash][]byte       // every account block the producer made (descendants included), by hash
+	paths   [][]types.Hash              // full paths from genesis; paths[0] is the trunk; index = height-1
+	forkAt  []uint64                    // height of the last momentum shared with the trunk (0 for the trunk itself)
 }
 
 func (h *history) record(dm *nom.DetailedMomentum) *histNode {
@@ -381,7 +380,7 @@ func wire(dms []*nom.DetailedMomentum) []*nom.DetailedMomentum {
 type syncFollower struct {
 	*follower
 	id       int
-	switches int // how many times this node left its chain (or was rolled back)
+	switches int  // how many times this node left its chain (or was rolled back)
 	lastOK   bool // the most recent delivery was accepted completely
 	history  []string
 }
@@ -859,40 +858,40 @@ func init() {
 		}
 
 		// ---- part 1c: directed, on every run: the batches that used to panic inside InsertChain (F7c, repaired in 264f72a) — the
-	//      empty batch; a first unknown momentum at frontier+2 and above (genuine momentums with a gap, and a fabricated one);
-	//      a head claiming height 0; a head claiming height 1 with a hash other than genesis. On a follower in the middle of the
-	//      trunk and on a follower that holds nothing but its genesis momentum.
-	for _, pos := range []int{L - 20, 1} {
-		f := r.newFollower()
-		if r.syncTo(f, 0, pos) {
-			trunk := hist.paths[0]
-			good := true
-			step := func(hit string, kind string, b []elem) {
-				if !good {
-					return
+		//      empty batch; a first unknown momentum at frontier+2 and above (genuine momentums with a gap, and a fabricated one);
+		//      a head claiming height 0; a head claiming height 1 with a hash other than genesis. On a follower in the middle of the
+		//      trunk and on a follower that holds nothing but its genesis momentum.
+		for _, pos := range []int{L - 20, 1} {
+			f := r.newFollower()
+			if r.syncTo(f, 0, pos) {
+				trunk := hist.paths[0]
+				good := true
+				step := func(hit string, kind string, b []elem) {
+					if !good {
+						return
+					}
+					c.Hit("directed-" + hit)
+					good = r.deliver(f, kind, b)
 				}
-				c.Hit("directed-" + hit)
-				good = r.deliver(f, kind, b)
+				step("empty-batch", "empty", nil)
+				step("above-frontier-gap1", "gap-above-frontier", r.seg(trunk, pos+2, pos+4))
+				step("above-frontier-gap5", "gap-above-frontier", r.seg(trunk, pos+6, pos+6))
+				step("above-frontier-overlap", "gap-above-frontier-overlap", append(r.seg(trunk, imax(pos-1, 1), pos), r.seg(trunk, pos+2, pos+3)...))
+				step("fabricated-above", "fabricated-above", r.fabricated(f.hashes(), 2, uint64(pos+2)))
+				step("fabricated-far-above", "fabricated-above", r.fabricated(f.hashes(), 2, 1<<62))
+				step("fabricated-height0", "fabricated-height0", r.fabricated(f.hashes(), 0, 0))
+				step("fabricated-height1", "fabricated-height1", r.fabricated(f.hashes(), 1, 1))
+				step("fabricated-height0-then-genuine", "fabricated-height0", append(r.fabricated(f.hashes(), 0, 0), r.seg(trunk, pos+1, pos+2)...))
+				// after all of that the node still takes the honest continuation
+				step("extension-after-refusals", "extend", r.seg(trunk, pos+1, pos+3))
+				if good {
+					r.reverify(f)
+				}
 			}
-			step("empty-batch", "empty", nil)
-			step("above-frontier-gap1", "gap-above-frontier", r.seg(trunk, pos+2, pos+4))
-			step("above-frontier-gap5", "gap-above-frontier", r.seg(trunk, pos+6, pos+6))
-			step("above-frontier-overlap", "gap-above-frontier-overlap", append(r.seg(trunk, imax(pos-1, 1), pos), r.seg(trunk, pos+2, pos+3)...))
-			step("fabricated-above", "fabricated-above", r.fabricated(f.hashes(), 2, uint64(pos+2)))
-			step("fabricated-far-above", "fabricated-above", r.fabricated(f.hashes(), 2, 1<<62))
-			step("fabricated-height0", "fabricated-height0", r.fabricated(f.hashes(), 0, 0))
-			step("fabricated-height1", "fabricated-height1", r.fabricated(f.hashes(), 1, 1))
-			step("fabricated-height0-then-genuine", "fabricated-height0", append(r.fabricated(f.hashes(), 0, 0), r.seg(trunk, pos+1, pos+2)...))
-			// after all of that the node still takes the honest continuation
-			step("extension-after-refusals", "extend", r.seg(trunk, pos+1, pos+3))
-			if good {
-				r.reverify(f)
-			}
+			f.stop()
 		}
-		f.stop()
-	}
 
-	// ---- part 2: directed sweep: every corruption kind at first / last / middle position, on an
+		// ---- part 2: directed sweep: every corruption kind at first / last / middle position, on an
 		//      extension (with a known prefix in front, so the index offset matters) and on a side chain
 		for pi, pos := range []int{0, 1, 2} {
 			for ki, ck := range corruptKinds {
@@ -1208,11 +1207,6 @@ func (r *syncRun) invalidOp(f *syncFollower, cur []types.Hash, p int, forceKind 
 			}
 		}
 	}
-	corrupt(c, r.hist, &b[pos], ck)
-	if ignored && (b[pos].note == "blocksig" || b[pos].note == "blockamount") {
-		b[pos].valid = true
-		b[pos].note += "-of-pooled-block"
-		c.Hit("corrupt-ignored-pooled-block")
 	ids := idsOf(b)
 	done := false
 	if forceKind == "" && c.R.Intn(5) < 2 {
@@ -1226,7 +1220,12 @@ func (r *syncRun) invalidOp(f *syncFollower, cur []types.Hash, p int, forceKind 
 		}
 	}
 	if !done {
-	corrupt(c, r.hist, &b[pos], ck)
+		corrupt(c, r.hist, &b[pos], ck)
+		if ignored && (b[pos].note == "blocksig" || b[pos].note == "blockamount") {
+			b[pos].valid = true
+			b[pos].note += "-of-pooled-block"
+			c.Hit("corrupt-ignored-pooled-block")
+		}
 	}
 	c.Hit(fmt.Sprintf("invalid-at-%s", map[bool]string{true: "first", false: map[bool]string{true: "last", false: "middle"}[pos == len(b)-1]}[pos == first]))
 	note := b[pos].note
